@@ -136,6 +136,25 @@ def gen_sandwich(tier, rng):
         yield 'sandwich', ops
 
 
+def gen_many_types(tier, rng):
+    """One or two names overloaded on MANY types (up to all 16), observed in full after every declaration and redeclared afterwards:
+    an overload set must answer alike at every size (small-set representations, thresholds)."""
+    for _ in range(12 if tier == 'quick' else 120):
+        names = rng.sample(NAMES, rng.randint(1, 2))
+        types = rng.sample(TYPES, rng.randint(7, len(TYPES)))
+        kind = {}
+        ops = ['new']
+        order = [(n, t) for n in names for t in types]
+        rng.shuffle(order)
+        for n, t in order:
+            kind[(n, t)] = rng.choice(kinds_for(t))
+            ops += ['decl %s %s %s' % (kind[(n, t)], n, t), 'full']
+            if rng.random() < 0.3:
+                m, u = rng.choice(order[:order.index((n, t)) + 1])
+                ops += ['decl %s %s %s' % (kind[(m, u)], m, u), 'full']
+        yield 'many-types', ops
+
+
 def gen_homogeneous(tier, rng):
     per = 150 if tier == 'quick' else 1000
     for hk in ('param', 'enum', 'base', 'eh'):
@@ -155,6 +174,7 @@ def generate(tier, rng, shape):
     cases += gen_exhaustive(5 if tier == 'quick' else 7, rng)
     cases += gen_random(tier, rng, shape)
     cases += gen_sandwich(tier, rng)
+    cases += gen_many_types(tier, rng)
     cases += gen_homogeneous(tier, rng)
     return cases
 
